@@ -448,10 +448,15 @@ class TreeGen:
             cands = [c for c in ks if c.k in DICTS and len(c.items) >= 2]
             if cands and rng.random() < 0.25:
                 twin = rng.choice(cands).copy()
-                rng.shuffle(twin.items)
-                if rng.random() < 0.3:
-                    twin.k = rng.choice(DICTS)
-                    twin.meta = rng.choice(U.FACTORIES) if twin.k == 'ddict' else None
+                how = rng.random()
+                if how < 0.3 and twin.k == 'ddict':
+                    # same keys in the SAME order, another default factory: all that tells the two nodes apart is the metadata
+                    twin.meta = rng.choice([f_ for f_ in U.FACTORIES if f_ is not twin.meta])
+                else:
+                    rng.shuffle(twin.items)
+                    if rng.random() < 0.3:
+                        twin.k = rng.choice(DICTS)
+                        twin.meta = rng.choice(U.FACTORIES) if twin.k == 'ddict' else None
                 ks.insert(rng.randrange(len(ks) + 1), twin)
             return D(k, ks)
         if k == 'deque':
